@@ -490,6 +490,37 @@ class Check:
         self.vamh_failures(d.get('oracle_failures'), 'vamh gen seed=%d' % self.seed)
         if len(self.cov['samples']) < 6:
             self.cov['samples'].append(dict(component='vamh', profiles=vs['profiles'], note='op kinds and results of this run', ops=d.get('op_kinds'), results=d.get('results')))
+        # correspondence of the whole-allocator model Vam.v (extracted: build/ocaml/drv_vamh) with the
+        # real allocator on the profiles the model covers completely
+        drv = B + '/ocaml/drv_vamh'
+        if os.path.exists(drv):
+            cn, co = (45, 70) if self.quick else (1200, 120)
+            cd = self.rundir + '/vamh-core'
+            sh([B + '/vamh', 'gen', '-seed', str((self.seed + 11) % (1 << 62)), '-n', str(cn), '-ops', str(co), '-profile', 'core,core2,core3',
+                '-out', cd, '-shrink=false', '-summary', cd + '.json'], timeout=3300)
+            drvc = self.rundir + '/drv_vamh'
+            shutil.copy(drv, drvc)
+            for tf in sorted(glob.glob(cd + '/h*.trace')):
+                impl = [l for l in open(tf).read().split('\n') if not l.startswith(('VIOL', 'NOTE', 'ORACLE-FAIL', '#'))]
+                rc2, mout, merr = sh([drvc, tf], timeout=600)
+                mod = mout.split('\n')
+                self.cov['evaluations'] += 1
+                hh = ophash(['vamh-core'] + [l for l in impl if l.startswith('OP ')])
+                if hh not in self.hashes:
+                    self.hashes.add(hh)
+                    self.nontrivial.add(hh)
+                if impl == mod:
+                    self.cov['traces_validated_against_impl'] += 1
+                else:
+                    self.cov['mismatches'] += 1
+                    if len([v for v in self.violations if not v[2]]) < 2:
+                        j = 0
+                        while j < len(impl) and j < len(mod) and impl[j] == mod[j]:
+                            j += 1
+                        rp = '%s/replays/%s-vamh-corr-%s' % (V, self.pid, os.path.basename(tf))
+                        shutil.copy(tf, rp)
+                        self.violations.append((rp, 'correspondence mismatch (whole-allocator model) at line %d: impl=%r model=%r' % (
+                            j, impl[j] if j < len(impl) else '<end>', mod[j] if j < len(mod) else '<end>'), False))
         for prof in vs.get('faults', []):
             fn, fo = (6, 40) if self.quick else (60, 60)
             rc, out, err = sh([B + '/vamh', 'faults', '-seed', str((self.seed + 5) % (1 << 62)), '-n', str(fn), '-ops', str(fo), '-profile', prof, '-out', outd + '-faults'], timeout=3300)
